@@ -8,6 +8,8 @@ cbind / update / modify / colnames= are dictionary surgery on (name -> cells)
 with the stated order rules; every column is compared cell by cell.
 """
 
+import numpy as np
+
 from vmon import canon, gen
 from vmon.res import Result, exc_name
 
@@ -244,6 +246,7 @@ def execute(case):
                 expected = [(n, pre[n]) for n in names if n not in opres[0]] + [(n, bc(c)) for n, c in opres[0].items()]
         elif op == "modify":
             kw = {}
+            scalar_forms = []
             exp = {n: pre[n] for n in names}
             order = list(names)
             for n, k, form, vals in case["mods"]:
@@ -256,15 +259,19 @@ def execute(case):
                     continue
                 arr = gen.np_column(k, vals)
                 cells = gen.expected_cells(k, vals)
+                pyscalar = form in ("scalar", "callable_scalar") and len(repr(vals)) % 2 == 0 and k != "float"
+                if pyscalar:
+                    # the Python value itself (a date, a str, an int ...) rather than a NumPy scalar
+                    scalar_forms.append((n, vals[0]))
                 if form == "scalar":
-                    kw[n] = arr[0]
+                    kw[n] = vals[0] if pyscalar else arr[0]
                     cells = cells * nrow
                 elif form == "vector":
                     kw[n] = di.Vector(arr)
                 elif form == "callable":
                     kw[n] = (lambda a: (lambda d: di.Vector(a)))(arr)
                 else:
-                    kw[n] = (lambda a: (lambda d: a[0]))(arr)
+                    kw[n] = (lambda a: (lambda d: a[0]))(vals if pyscalar else arr)
                     cells = cells * nrow
                 exp[n] = cells
                 if n not in order:
@@ -278,6 +285,13 @@ def execute(case):
                     pass
             out = df.modify(**kw)
             expected = [(n, exp[n]) for n in order]
+            for n, v in scalar_forms:
+                # a scalar is broadcast: the column is the one the same value repeated nrow times gives (of the same type, too)
+                if n in dict.keys(out) and nrow:
+                    have, want = canon.dtype_kind(dict.__getitem__(out, n)), canon.dtype_kind(di.Vector([v] * nrow))
+                    if have != want:
+                        res.violate(f"modify:scalar-broadcast-differs-from-vector-form:{type(v).__name__}", f"modify({n}={v!r}) gave a {have} column ({np.asarray(dict.__getitem__(out, n)).dtype}), modify({n}=[{v!r}] * {nrow}) a {want} column; {ctx}")
+                    res.count("scalar-vs-vector-form-checked")
     except Exception as e:
         res.violate(f"{op}:raised:{exc_name(e)}:{variant or 'plain'}", f"raised {e!r}; {ctx}")
         return res.dict()
